@@ -60,11 +60,27 @@ def main():
             subprocess.run(["git", "-C", "/repo", "worktree", "remove", "--force", wt])
             shutil.rmtree(wt, ignore_errors=True)
         print(rows[-1][0], "|", rows[-1][1])
-    if not args:
-        with open(os.path.join(root, "RESULTS.md"), "w") as f:
-            f.write(f"# Seeded changes vs. checks ({tier} tier, against /repo HEAD)\n\n| seed | result | first reported clause |\n|---|---|---|\n")
-            for sd, res, first in rows:
-                f.write(f"| {sd} | {res} | {first.replace('|', '/')} |\n")
+    # RESULTS.md is rebuilt from the meta.json files of ALL stored seeds (latest recorded run of each)
+    allseeds = sorted(d for d in os.listdir(root) if os.path.isdir(os.path.join(root, d)))
+    with open(os.path.join(root, "RESULTS.md"), "w") as f:
+        f.write("# Seeded changes vs. checks (latest recorded run of every seed against /repo HEAD)\n\n| seed | result | first reported clause |\n|---|---|---|\n")
+        for sd in allseeds:
+            mf = os.path.join(root, sd, "meta.json")
+            meta = json.load(open(mf)) if os.path.exists(mf) else {}
+            if meta.get("applies_to_head") is False:
+                f.write(f"| {sd} | patch does not apply to the current HEAD (superseded by a later fix) | |\n")
+                continue
+            res = meta.get("checks") or {}
+            caught = [c for c, v in res.items() if v.get("exit") == 1]
+            if not res:
+                line = "not swept yet"
+            elif caught:
+                line = "caught by " + ", ".join(caught)
+            else:
+                line = "MISSED (" + ", ".join(f"{c}: exit {v.get('exit')}" for c, v in res.items()) + ")"
+            first = "; ".join(v.get("first", "") for v in res.values() if v.get("first"))[:220]
+            note = f" ({meta['rebased'][:60]}...)" if meta.get("rebased") else ""
+            f.write(f"| {sd} | {line}{note} | {first.replace('|', '/')} |\n")
 
 
 if __name__ == "__main__":
